@@ -32,6 +32,8 @@ import (
 //	sweep      every node's in-flight table is swept with now = far future (all pending entries expire)
 //	gossip1    (manual gossip mode) deliver pending broadcast number C to node Node
 //	gossipall  (manual gossip mode) deliver every pending broadcast everywhere, repeatedly, until none is left
+//	rpcunsub   an operator removes client C's subscription Filters[0] through node Node's DeleteSubscription RPC
+//	rpcclear   an operator clears the retained message of Topic in mount point MP through node Node's DeleteRetainedMessage RPC
 type Step struct {
 	Op        string   `json:"op"`
 	C         int      `json:"c,omitempty"`
@@ -734,6 +736,42 @@ func (w *World) Apply(st Step) (problem string, inconclusive bool) {
 			}
 		}
 		w.Cl.AntiEntropy()
+		if !settle() {
+			return
+		}
+	case "rpcunsub":
+		// the operator's view: the subscription is gone for everybody from now on; the session
+		// stays connected and may subscribe again (which must make the filter active again)
+		if s == nil || !s.Alive || s.Node.Down || s.Displaced || s.SessionID == "" || len(st.Filters) == 0 {
+			return "", false
+		}
+		if _, ok := s.Subs[st.Filters[0]]; !ok {
+			return "", false
+		}
+		n := w.Cl.Nodes[st.Node%len(w.Cl.Nodes)]
+		if n.Down {
+			return "", false
+		}
+		if err := n.AdminDeleteSubscription(s.SessionID, []byte(w.mp(s)+"/"+st.Filters[0])); err != nil {
+			return "DeleteSubscription RPC failed: " + err.Error(), false
+		}
+		delete(s.Subs, st.Filters[0])
+		if !settle() {
+			return
+		}
+	case "rpcclear":
+		n := w.Cl.Nodes[st.Node%len(w.Cl.Nodes)]
+		if n.Down || st.Topic == "" {
+			return "", false
+		}
+		mp := st.MP
+		if mp == "" {
+			mp = "_default"
+		}
+		if err := n.AdminDeleteRetained([]byte(mp + "/" + st.Topic)); err != nil {
+			return "DeleteRetainedMessage RPC failed: " + err.Error(), false
+		}
+		delete(w.Retained[mp], st.Topic)
 		if !settle() {
 			return
 		}
